@@ -45,6 +45,13 @@ func c07Text(seed, n int) []byte {
 
 // c07Universe: the objects sets are drawn from (per object format).
 func c07Universe(sha256fmt bool) (core []c07Obj, chain []c07Obj) {
+	core, chain, _ = c07UniverseX(sha256fmt)
+	return
+}
+
+// c07UniverseX also returns the objects of the second driver (c07_extra.go).
+func c07UniverseX(sha256fmt bool) (core []c07Obj, chain []c07Obj, extra []c07Obj) {
+	defer func() { extra = c07ExtraObjects(sha256fmt, core) }()
 	add := func(name, typ string, data []byte) c07Obj {
 		o := c07Obj{name, typ, data, bOIDHex(sha256fmt, typ, data)}
 		core = append(core, o)
@@ -97,11 +104,17 @@ type c07Env struct {
 	all    []c07Obj
 	mem    sync.Pool
 	fs     sync.Pool
+	// second driver
+	nCore, nChain int
+	packedOfs     string // like packed, written with --delta-base-offset (OFS_DELTA entries)
+	fsOfs         sync.Pool
+	fsLoose       sync.Pool
 }
 
 func c07Setup(c *fw.Ctx, sha256fmt bool) *c07Env {
-	core, chain := c07Universe(sha256fmt)
-	env := &c07Env{sha256: sha256fmt, all: append(append([]c07Obj{}, core...), chain...)}
+	core, chain, extra := c07UniverseX(sha256fmt)
+	env := &c07Env{sha256: sha256fmt, all: append(append(append([]c07Obj{}, core...), chain...), extra...)}
+	env.nCore, env.nChain = len(core), len(chain)
 	env.g, env.dir = c.InitRepo("c07-"+bFmtName(sha256fmt), bFmtName(sha256fmt), true)
 	src := c.TempDir("c07src")
 	for _, typ := range []string{"blob", "tree", "commit", "tag"} {
@@ -160,6 +173,7 @@ func c07Setup(c *fw.Ctx, sha256fmt bool) *c07Env {
 	env.fs.New = func() any {
 		return filesystem.NewStorageWithOptions(osfs.New(env.packed), cache.NewObjectLRU(8*cache.MiByte), filesystem.Options{})
 	}
+	c07SetupExtra(c, env, ids)
 	return env
 }
 
@@ -181,6 +195,9 @@ type c07Info struct {
 	nEnt, nDelta, maxDepth int
 	dupIn                  bool
 	trailer                []byte
+	// territory reached (classes only)
+	farOfs, hdr4, bigDelta bool
+	deltaTypes             string
 }
 
 func c07HasDup(objs []c07Obj) bool {
@@ -202,6 +219,14 @@ func c07Encode(env *c07Env, objs []c07Obj, cfg c07Cfg) (pack []byte, info c07Inf
 		m := env.mem.Get().(*memory.Storage)
 		defer env.mem.Put(m)
 		st = m
+	} else if cfg.Storage == "packed-ofs" {
+		f := env.fsOfs.Get().(*filesystem.Storage)
+		defer env.fsOfs.Put(f)
+		st = f
+	} else if cfg.Storage == "loose" {
+		f := env.fsLoose.Get().(*filesystem.Storage)
+		defer env.fsLoose.Put(f)
+		st = f
 	} else {
 		f := env.fs.Get().(*filesystem.Storage)
 		defer env.fs.Put(f)
@@ -272,6 +297,18 @@ func c07Encode(env *c07Env, objs []c07Obj, cfg c07Cfg) (pack []byte, info c07Inf
 		}
 		if e.Type == bTRef {
 			nRef++
+		}
+		if e.Type == bTOfs && e.Off-e.BaseOff >= 16384 {
+			info.farOfs = true
+		}
+		if e.HdrLen >= 4 {
+			info.hdr4 = true
+		}
+		if e.Type >= 6 && len(e.RData) > 65536 {
+			info.bigDelta = true
+		}
+		if e.Type >= 6 && !strings.Contains(info.deltaTypes, e.RType[:2]) {
+			info.deltaTypes += e.RType[:2]
 		}
 		if e.Type >= 6 {
 			info.nDelta++
@@ -369,6 +406,15 @@ func c07Cfgs() []c07Cfg {
 			}
 		}
 	}
+	// second driver: the OFS_DELTA source pack only matters when deltas are
+	// looked up (window > 0); the loose source differs from the memory one in
+	// how whole objects are read, not in the selection
+	for _, ref := range []bool{false, true} {
+		for _, w := range []uint{1, 10} {
+			cfgs = append(cfgs, c07Cfg{"packed-ofs", w, ref})
+		}
+	}
+	cfgs = append(cfgs, c07Cfg{"loose", 0, false}, c07Cfg{"loose", 10, false})
 	return cfgs
 }
 
@@ -511,7 +557,7 @@ func c07Report(c *fw.Ctx, envs []*c07Env, env *c07Env, objs []c07Obj, cfg c07Cfg
 	c.Fail(key, what+": "+detail+" ["+cfg.String()+" "+bFmtName(env.sha256)+"]", map[string]any{
 		"format": bFmtName(env.sha256), "config": cfg.String(), "request": orig, "minimal_request": mins,
 		"minimal_config": bestCfg.String() + " " + bFmtName(bestEnv.sha256),
-		"replay": "objects = c07Universe(format); packfile.NewEncoder(w, storage, ref).Encode(hashes(request), window); git index-pack --strict; git verify-pack -v"})
+		"replay":         "objects = c07Universe(format); packfile.NewEncoder(w, storage, ref).Encode(hashes(request), window); git index-pack --strict; git verify-pack -v"})
 	return min
 }
 
@@ -531,7 +577,10 @@ func runC07(c *fw.Ctx) {
 	c.Bound("windows", []int{0, 1, 10, 50})
 	c.Bound("delta_kinds", []string{"ofs", "ref"})
 	c.Bound("object_formats", []string{"sha1", "sha256"})
-	c.Bound("source_storages", []string{"memory (whole objects)", "filesystem storage over a git-written pack (deltas are reused)"})
+	c.Bound("source_storages", []string{"memory (whole objects)", "filesystem storage over a git-written pack of REF_DELTA entries (deltas are reused)", "the same with OFS_DELTA entries (pack-objects --delta-base-offset)", "filesystem storage over loose objects"})
+	c.Bound("extra_universe", "second driver (c07_extra.go): near-identical 70 KiB and 300 KiB blob pairs, near-identical commit and tag pairs, blobs of 1/16/17/18/19/40 bytes (two of each size from 17), a 21 KiB / 20 KiB incompressible / 19 KiB triple (OFS distance > 16384)")
+	c.Bound("extra_requests", "the pairs, six requests of tiny blobs (thorough: every subset <=2 of seven), all tiny blobs, the far triple in both orders, chain[10:30], chain[:52], every other / every tenth missing element of the edit chain (thorough also chain[5:]), the whole universe")
+	c.Bound("extra_configurations", "packed-ofs: window {1,10} x {ofs,ref}; loose: window {0,10} x ofs")
 	c.SetRule("every subset of the universe up to max_subset_size (plus the same list with its first object requested twice for sizes 1-2, plus the whole 60-version chain: in order, reversed, and with a duplicate) x 4 windows x {ofs,ref} x {sha1,sha256} x 2 source storages is encoded with packfile.Encoder; the bytes are read by an independent pack reader (trailer = hash of body, header count = entries, resolved (type,content) set = request, no object twice unless requested twice), and every DISTINCT pack (byte-identical outputs of different configurations are run once) goes to `git index-pack --strict` (names in git's idx = request) and `git verify-pack -v`. distinct = (entries, #deltas, max chain depth, delta kind, has-duplicate) classes.")
 	c.Assume("git index-pack runs inside a repository that holds the whole universe as loose objects, so that --strict link checks pass for sets that are not closed; 'The same object appears twice' from --strict is tolerated only when the request itself names an object twice (plain index-pack must then accept)")
 	t0 := c.Elapsed().Seconds()
@@ -554,8 +603,8 @@ func runC07(c *fw.Ctx) {
 	}
 	lap("setup")
 	for _, env := range envs {
-		core := env.all[:11]
-		chain := env.all[11:]
+		core := env.all[:env.nCore]
+		chain := env.all[env.nCore : env.nCore+env.nChain]
 		var reqs [][]c07Obj
 		for _, sub := range fw.Subsets(len(core), maxSub) {
 			var r []c07Obj
@@ -574,6 +623,7 @@ func runC07(c *fw.Ctx) {
 			rev[len(chain)-1-i] = chain[i]
 		}
 		reqs = append(reqs, rev)
+		reqs = append(reqs, c07ExtraRequests(env, c.Thorough())...)
 		for _, r := range reqs {
 			for _, cfg := range cfgs {
 				jobs = append(jobs, job{env, r, cfg})
@@ -629,6 +679,9 @@ func runC07(c *fw.Ctx) {
 				depthClass = 3 + info.maxDepth/10
 			}
 			c.Class(fmt.Sprintf("n=%d deltas=%d depth=%d ref=%v dup=%v", minInt(info.nEnt, 6), minInt(info.nDelta, 4), depthClass, j.cfg.Ref && info.nDelta > 0, info.dupIn))
+			if info.farOfs || info.hdr4 || info.bigDelta || strings.Contains(info.deltaTypes, "co") || strings.Contains(info.deltaTypes, "ta") {
+				c.Class(fmt.Sprintf("far-ofs=%v hdr4=%v delta>64K=%v commit-delta=%v tag-delta=%v", info.farOfs, info.hdr4, info.bigDelta, strings.Contains(info.deltaTypes, "co"), strings.Contains(info.deltaTypes, "ta")))
+			}
 			key := bFmtName(j.env.sha256) + hex.EncodeToString(info.trailer)
 			mu.Lock()
 			if _, ok := distinct[key]; !ok {
